@@ -133,7 +133,9 @@ fn cmd_model(args: &Args) -> i32 {
     hooks::install_version_queue();
     hooks::install_clock();
     let known = load_known(args);
+    let focus: Option<String> = args.kv.get("focus").cloned();
     let mut known_hits: BTreeMap<String, (u64, String)> = BTreeMap::new();
+    let mut other_hits: BTreeMap<String, (u64, String)> = BTreeMap::new();
 
     let start = Instant::now();
     let mut counters = inst::Counters::new();
@@ -149,7 +151,11 @@ fn cmd_model(args: &Args) -> i32 {
     while cases < max_cases && start.elapsed() < time_limit {
         let case_no = shard * 1_000_000 + cases;
         let case = build_case(&profile, mode, seed, case_no);
-        let r = run_case(&case, None, &scratch, "run", &known);
+        let r = run_case(&case, None, &scratch, "run", &known, &focus);
+        for (k, (n, m)) in &r.other_hits {
+            let e = other_hits.entry(k.clone()).or_insert((0, m.clone()));
+            e.0 += n;
+        }
         for (k, (n, m)) in &r.known_hits {
             let e = known_hits.entry(k.clone()).or_insert((0, m.clone()));
             e.0 += n;
@@ -177,8 +183,8 @@ fn cmd_model(args: &Args) -> i32 {
             let key = format!("{}|{}", v.tags.join(","), v.sig);
             if seen_sigs.insert(key) && violations.len() < max_violations {
                 let failed_at = r.failed_at.unwrap_or(0);
-                let (keep, best) = shrink(&case, v, failed_at, &scratch, 150, Instant::now() + Duration::from_secs(25), &known);
-                let rr = run_case(&case, Some(&keep), &scratch, "final", &known);
+                let (keep, best) = shrink(&case, v, failed_at, &scratch, 150, Instant::now() + Duration::from_secs(25), &known, &focus);
+                let rr = run_case(&case, Some(&keep), &scratch, "final", &known, &focus);
                 let _ = std::fs::create_dir_all(&replay_dir);
                 let path = replay_dir.join(format!("{}-{}-s{}-c{}.json", profile, args.s("mode", "single"), seed, case_no));
                 let mut o = J::obj();
@@ -228,6 +234,21 @@ fn cmd_model(args: &Args) -> i32 {
         ),
     );
     rep.set("samples", J::Arr(samples));
+    rep.set(
+        "other_hits",
+        J::Arr(
+            other_hits
+                .iter()
+                .map(|(k, (n, m))| {
+                    let mut o = J::obj();
+                    o.set("key", J::s(k.clone()));
+                    o.set("count", J::i(*n));
+                    o.set("example", J::s(m.clone()));
+                    o
+                })
+                .collect(),
+        ),
+    );
     rep.set("wall_s", J::Num(start.elapsed().as_secs_f64()));
     let text = rep.render();
     if out.is_empty() {
@@ -259,7 +280,7 @@ fn cmd_replay(args: &Args) -> i32 {
             let case_no = j.get("case").and_then(J::as_i64).unwrap_or(0) as u64;
             let keep: Option<BTreeSet<usize>> = j.get("keep").and_then(J::as_arr).map(|a| a.iter().filter_map(J::as_i64).map(|x| x as usize).collect());
             let case = build_case(&profile, mode, seed, case_no);
-            let r = run_case(&case, keep.as_ref(), &scratch, "replay", &load_known(args));
+            let r = run_case(&case, keep.as_ref(), &scratch, "replay", &load_known(args), &args.kv.get("focus").cloned());
             match r.violation {
                 Some(v) => {
                     println!("REPLAY-VIOLATION tags={} sig={}", v.tags.join(","), v.sig);
